@@ -685,6 +685,14 @@ impl DtlsInner {
                                     is_client,
                                 )
                                 .await?;
+                            } else if msg.msg_type == HandshakeType::Finished && !is_client {
+                                // The peer retransmitted its final flight: our
+                                // ChangeCipherSpec+Finished was lost (RFC 6347 §4.2.4).
+                                let connected =
+                                    matches!(*self.state.lock(), DtlsState::Connected(..));
+                                if connected && let Some(records) = &ctx.last_flight_records {
+                                    let _ = self.conn.send_dtls_record_batch(records).await;
+                                }
                             }
                             continue;
                         }
